@@ -264,7 +264,15 @@ pub fn judge(case: &Case, acc: &mut Acc) {
             feeders.push(procmon::feed_fifo(sc.path().join(name), content.clone()));
         }
     }
-    let out = procmon::run(Run { bin: &procmon::release_bin(), argv: argv.clone(), cwd: sc.path(), stdin: StdinKind::Bytes(stdin.clone()), stdout: kind, wall_secs: 120, cpu_secs: 60 });
+    let r = Run { bin: &procmon::release_bin(), argv: argv.clone(), cwd: sc.path(), stdin: StdinKind::Bytes(stdin.clone()), stdout: kind, wall_secs: 120, cpu_secs: 60 };
+    // with hundreds of operands the process may hold only 16 descriptors at a time: every input has to be
+    // closed (and unmapped) before the next one is opened
+    let out = if case.sizes.len() >= 100 {
+        acc.count("invocations_under_a_descriptor_limit");
+        procmon::run_nofile(r, 16)
+    } else {
+        procmon::run(r)
+    };
     acc.count(&format!("expected_exit_{}", exp.exit));
     acc.count(&format!("failure_{}", if case.fail_at.is_some() { case.failure } else { "none" }));
     if let Some(p) = case.fail_at {
@@ -336,7 +344,7 @@ pub fn run(ctx: &Ctx) -> i32 {
         acc.sample_every(149, || case.json());
         judge(&case, acc);
     });
-    let rule = format!("{} invocations: 1-6 inputs (one invocation in forty: 100-400 small inputs with the failing one near the end) with sizes from 5 B to 4 MiB (mostly below the 8 KiB stdout buffer, some straddling it, some far above), the failing input at every position in turn (or none), failure kinds {:?}, all four targets, stdout a pipe or a file (one run in nine: a full pipe in non-blocking mode, where the run must stop with status 1 at the first input whose output cannot be delivered instead of going on and blaming a later one), some inputs through standard input, some zero-length or blank files, one invocation in five with an input of exactly 256 / 512 / 1000 / 1023 / 1024 / 1025 / 2048 / 3072 / 4096 / 8192 / 10000 / 16384 one-line documents, one name in six not valid UTF-8; every second small input is a generated document in a random source format and spelling (named by its extension) whose last value is an empty string, an empty collection or another value that serializers finish with an unusual final write, delivered as a regular file, on standard input (format detected) or through a FIFO (named with or without its extension); expectation computed with the library; distinct non-trivial = distinct invocations", n, FAILURES);
+    let rule = format!("{} invocations: 1-6 inputs (one invocation in forty: 100-400 small inputs with the failing one near the end, under a limit of 16 open descriptors) with sizes from 5 B to 4 MiB (mostly below the 8 KiB stdout buffer, some straddling it, some far above), the failing input at every position in turn (or none), failure kinds {:?}, all four targets, stdout a pipe or a file (one run in nine: a full pipe in non-blocking mode, where the run must stop with status 1 at the first input whose output cannot be delivered instead of going on and blaming a later one), some inputs through standard input, some zero-length or blank files, one invocation in five with an input of exactly 256 / 512 / 1000 / 1023 / 1024 / 1025 / 2048 / 3072 / 4096 / 8192 / 10000 / 16384 one-line documents, one name in six not valid UTF-8; every second small input is a generated document in a random source format and spelling (named by its extension) whose last value is an empty string, an empty collection or another value that serializers finish with an unusual final write, delivered as a regular file, on standard input (format detected) or through a FIFO (named with or without its extension); expectation computed with the library; distinct non-trivial = distinct invocations", n, FAILURES);
     ev::finish(
         Finish { ctx, level: "fault_enumeration", rule, assumptions: vec!["how much of the FAILING input's own partial output reaches stdout is left open (anything between nothing and all of it)".into()], extra: serde_json::Map::new(), exhaustive: false, min_distinct: 300, must_reach: vec![("failures_with_earlier_output_below_buffer_size".into(), 100), ("expected_exit_0".into(), 50), ("failing_position_0".into(), 20), ("failing_position_3".into(), 20), ("generated_input_msgpack".into(), 30), ("generated_input_yaml".into(), 30), ("generated_input_json".into(), 30), ("generated_input_on_stdin".into(), 20), ("zero_length_or_blank_input".into(), 50), ("input_names_not_utf8".into(), 100), ("generated_input_through_fifo".into(), 30), ("inputs_with_an_exact_round_number_of_documents".into(), 100), ("invocations_with_hundreds_of_inputs".into(), 20), ("full_pipe_failure_reported_at_the_input_whose_output_was_lost".into(), 40)] },
         acc,
